@@ -272,6 +272,33 @@ pub fn run() {
 """
 NO_PRELUDE_EXPECT = ["11", "21", "31", "2", "3", "4", "40", "5", "41", "6", "2", "7"]
 
+# impl blocks for the delegation-target traits of *another crate*, named by absolute path, in a scope that has a local module named
+# like that crate: the path the user wrote has to stay absolute in the generated trait impl
+ABS_IMPL = """#![no_implicit_prelude]
+pub mod c19nostd { pub mod ns_inv { pub struct NotTheCrate; pub trait InvImpl<T> {} pub trait DynImpl<T> {} } }
+pub struct Local;
+#[::entrait::entrait] /*@inv*/
+impl ::c19nostd::ns_inv::InvImpl for Local {
+    pub fn inv<D>(deps: &D, a: i32, b: i32) -> (u32, usize, i32, i32) { (70, 0, a, b) }
+    pub async fn ainv<D>(deps: &D, a: i32) -> (u32, i32) { (71, a) }
+}
+pub struct LocalDyn;
+#[::entrait::entrait(ref)]
+impl ::c19nostd::ns_inv::DynImpl for LocalDyn { pub fn dinv<D>(deps: &D, a: i32) -> (u32, usize, i32) { (72, 0, a) } }
+pub struct App2;
+impl ::c19nostd::ns_inv::DelegateInv<Self> for App2 { type Target = Local; }
+pub struct DynApp2(pub LocalDyn);
+impl ::core::convert::AsRef<dyn ::c19nostd::ns_inv::DynImpl<DynApp2>> for DynApp2 { fn as_ref(&self) -> &(dyn ::c19nostd::ns_inv::DynImpl<DynApp2> + 'static) { &self.0 } }
+pub fn run() {
+    let app = ::entrait::Impl::new(App2);
+    ::vrt::phase("inv"); let r = ::c19nostd::ns_inv::Inv::inv(&app, 1, 2); ::vrt::result(&r);
+    ::vrt::phase("ainv"); let r = ::vrt::block_on(::c19nostd::ns_inv::Inv::ainv(&app, 5)); ::vrt::result(&r);
+    let dapp = ::entrait::Impl::new(DynApp2(LocalDyn));
+    ::vrt::phase("dinv"); let r = ::c19nostd::ns_inv::DynInv::dinv(&dapp, 3); ::vrt::result(&r);
+}
+"""
+ABS_IMPL_EXPECT = ["(70, 0, 1, 2)", "(71, 5)", "(72, 0, 3)"]
+
 MARKER_NAMED = """
 %s
 #[::entrait::entrait(pub Sync)] /*@inv*/
@@ -337,7 +364,7 @@ def run(tier, seed):
                      # own panic handler (firmware style); nothing depends on it, it only has to build
                      "c19bare": {"Cargo.toml": "[package]\nname = \"c19bare\"\nversion = \"0.0.0\"\nedition = \"2021\"\n[dependencies]\nentrait = { path = \"%s\" }\n" % core.REPO,
                                  "src/lib.rs": NOSTD_LIB + "\n#[panic_handler]\nfn __c19_panic(_: &::core::panic::PanicInfo) -> ! { loop {} }\n"}}
-            drv = [Case("c19_nostd_driver", NOSTD_DRIVER, meta={"family": "no_std"})]
+            drv = [Case("c19_nostd_driver", NOSTD_DRIVER, meta={"family": "no_std"}), Case("c19_abs_impl", ABS_IMPL, meta={"family": "abs_impl"})]
         st = selftest.case("selftest_c19" + label)
         ws = core.Workspace(PROP, label, unimock=feature, deps=("async-trait",), extra_crates=extra)
         # pinned input of a recorded finding (K16): an item of the invoking scope named like a parameter name the macro invents
@@ -414,6 +441,20 @@ pub fn run() {}
             d = (kpin.removed["diags"] or [{}])[0]
             rep.violation(kpin.id, "generated-name-captured:%s" % d.get("code"), "a unit struct of the invoking scope named `arg0` captures the parameter name the macro generated: %s" % d.get("message", "")[:200],
                           pinned="generated_param_name_captured")
+        for ac in [x for x in drv if x.meta["family"] == "abs_impl"]:
+            by[ac.id] = ac
+            if ac.removed is not None:
+                for d in (ac.removed["diags"] or [{}])[:3]:
+                    rep.violation(ac.id, "abs-impl-path:%s:%s" % (d.get("code"), d.get("message", "")[:60]),
+                                  "an impl block whose trait is named by an absolute path (`impl ::c19nostd::ns_inv::InvImpl for ..`), next to a local module "
+                                  "`c19nostd`, does not compile: %s" % d.get("message", "")[:300])
+            else:
+                res = [p_["result"] for p_ in (ac.runrec.get("bin") or {}).get("phases", [])]
+                if res != ABS_IMPL_EXPECT:
+                    rep.violation(ac.id, "abs-impl-path:behaviour", "results %s, expected %s" % (res, ABS_IMPL_EXPECT))
+                else:
+                    rep.bump("abs_impl_path_case_ok")
+            rep.count(ac.sig(), True)
         by[noprel.id] = noprel
         if noprel.removed is not None:
             for d in (noprel.removed["diags"] or [{}])[:3]:
@@ -438,7 +479,7 @@ pub fn run() {}
                 else:
                     rep.bump("marker_named_cases_ok")
             rep.count(c.sig(), True)
-        for c in drv:
+        for c in [x for x in drv if x.meta["family"] == "no_std"]:
             by[c.id] = c
             if c.removed is not None:
                 d = (c.removed["diags"] or [{}])[0]
@@ -454,7 +495,7 @@ pub fn run() {}
                     else:
                         rep.bump("no_std_calls_equal")
             rep.count(c.sig(), True)
-    core.floors(rep, twin_runs_equal=n, expansions_scanned=2 * n, no_std_calls_equal=16, marker_named_cases_ok=2)
+    core.floors(rep, twin_runs_equal=n, expansions_scanned=2 * n, no_std_calls_equal=16, marker_named_cases_ok=2, abs_impl_path_case_ok=1)
     rep.assumptions = ["user tokens of these corpora never contain watch-listed names bare (generators use absolute paths), so a bare occurrence is macro-made",
                        "reserved names EntraitT / __impl are never used by the generators"]
     return rep.finish(by)
